@@ -22,12 +22,6 @@ impl Clone for HctlTreeNode { #[verifier::external_body] fn clone(&self) -> (r: 
 impl PartialEq for HctlToken { #[verifier::external_body] fn eq(&self, o: &Self) -> (r: bool) ensures r <==> *self == *o { unimplemented!() } }
 impl PartialEq for HybridOp { #[verifier::external_body] fn eq(&self, o: &Self) -> (r: bool) ensures r <==> *self == *o { unimplemented!() } }
 
-// `Atomic::from(bool)`: spec side of the std `From` trait (vstd wants a FromSpecImpl next to an `impl From`)
-impl vstd::std_specs::convert::FromSpecImpl<bool> for Atomic {
-    open spec fn obeys_from_spec() -> bool { true }
-    open spec fn from_spec(v: bool) -> Atomic { if v { Atomic::True } else { Atomic::False } }
-}
-
 pub enum SAtom { Prop(Seq<char>), Var(Seq<char>), True, False, Wild(Seq<char>) }
 pub open spec fn view_atom(a: Atomic) -> SAtom {
     match a {
